@@ -50,11 +50,12 @@ pub fn opaque_min(r: &mut Rng, min: usize, max: usize) -> Vec<u8> {
     r.bytes(n)
 }
 pub fn list_len(r: &mut Rng, max: usize) -> usize {
-    match r.below(8) {
+    match r.below(10) {
         0 => 0,
         1 => 1,
         2 => 2,
         3 => max,
+        4 | 5 => r.usize(0, max),
         _ => r.usize(0, max.min(6)),
     }
 }
